@@ -388,9 +388,33 @@ def pageSuppliedOk (kw : PageField → Option Raw) (f : PageField) : Bool :=
   | none => true
   | some x => validatePageField f x
 
-/-- `RTFPage(**kw)`: every rule is a field validator, so every failure is a `ValidationError` -/
+/-- the number a supplied page field holds (`None` / not supplied / not a number → `none`) -/
+def pageNum (kw : PageField → Option Raw) (f : PageField) : Option Rat :=
+  match kw f with
+  | some (.scalar v) =>
+    (match coerce .float v with
+     | .ok (.rat q) => some q
+     | _ => none)
+  | _ => none
+
+def pageLandscape (kw : PageField → Option Raw) : Bool :=
+  kw .orientation == some (.scalar (.str "landscape"))
+
+/-- `_set_portrait_defaults` / `_set_landscape_defaults`: `col_width or width - 2.25` (landscape `- 2.5`) with
+`width or 8.5` (landscape `11`). The subtraction of two nearby doubles is exact, so the sign of the float result
+is the sign of this rational. -/
+def resolvedColWidth (kw : PageField → Option Raw) : Rat :=
+  let side : Rat := if pageLandscape kw then 5 / 2 else 9 / 4
+  let width : Rat := (pageNum kw .width).getD (if pageLandscape kw then 11 else 17 / 2)
+  (pageNum kw .colWidth).getD (width - side)
+
+/-- `RTFPage(**kw)`: every field rule is a field validator (`ValidationError`); afterwards `_set_default` resolves
+the table width and `_validate_resolved_col_width` raises a plain `ValueError` when it is not positive
+(a page narrower than the side allowance) -/
 def constructPage (kw : PageField → Option Raw) : Except Err Unit :=
-  if pageFields.all (pageSuppliedOk kw) then .ok () else .error .validationError
+  if pageFields.all (pageSuppliedOk kw) then
+    if decide (0 < resolvedColWidth kw) then .ok () else .error .valueError
+  else .error .validationError
 
 /-! ## RTFFigure -/
 
@@ -442,7 +466,19 @@ structure BodySpec where
   groupBy : Option (List String) := none
   pageBy : Option (List String) := none
   sublineBy : Option (List String) := none
+  /-- `new_page` -/
+  newPage : Bool := false
+  /-- `pageby_row == "column"` (the default) -/
+  pagebyColumn : Bool := true
   deriving Repr, Inhabited
+
+/-- the columns the encoder takes out of the table (`prepare_dataframe_for_body_encoding`): `subline_by` always,
+`page_by` unless `new_page=True` keeps it as a column (`pageby_row="column"`) -/
+def BodySpec.removed (b : BodySpec) : List String :=
+  b.sublineBy.getD [] ++ (if b.newPage && b.pagebyColumn then [] else b.pageBy.getD [])
+
+/-- no `group_by` column is one of the removed columns (checked at construction since the repair of D43) -/
+def groupKept (b : BodySpec) : Bool := (b.groupBy.getD []).all (fun c => !b.removed.contains c)
 
 inductive DfArg where
   | none
@@ -478,7 +514,7 @@ def colsPresent (cols : List String) : Option (List String) → Bool
 
 /-- `_validate_section_columns` -/
 def sectionOk (cols : List String) (b : BodySpec) : Bool :=
-  colsPresent cols b.groupBy && colsPresent cols b.pageBy && colsPresent cols b.sublineBy
+  colsPresent cols b.groupBy && colsPresent cols b.pageBy && colsPresent cols b.sublineBy && groupKept b
 
 /-- the nested `rtf_column_header` form has a length different from the section list -/
 def headerMismatch (h : HeaderArg) (nsec : Nat) : Bool :=
